@@ -1627,3 +1627,14 @@ def replay(payload):
         sc = {k: v for k, v in sc.items() if k != "inner"}
     v = _judge(sc)
     return {"violates": bool(v), "detail": v}
+
+
+def pregen(ctx):
+    """tie (T) for the legacy part: re-translate compat/_base.py (_ESNBase._get_next_state, compute_outputs) of the tree under test into
+    coq/gen/Gen_legacy.v (vlib/la_specs_legacy.py on top of vlib/py2coq_la.py) and re-extract the keyword table of compat/__init__.py
+    load_compat into coq/gen/Gen_compat.v (vlib/py2coq_compat.py); proofs/Gen_legacy_eq.v then proves them equal to legacy_step /
+    legacy_out / convert of model/Store.v.  Returns None or the error text; on rejection a stub that does not compile replaces the file
+    (never a stale model)."""
+    from vlib import la_specs_legacy, py2coq_compat
+    errs = [e for e in (la_specs_legacy.pregen(), py2coq_compat.pregen()) if e]
+    return "\n".join(errs) or None
